@@ -50,3 +50,15 @@ Theorem calc_labels_pinned :
                        "hybridization == 2"; "(a := atoms[m]) == H"; "a != C"] /\
   calc_labels_hyb_values = ["1"; "4"; "3"; "2"; "3"].
 Proof. split; reflexivity. Qed.
+
+(* SmartsFull.smarts_cx / atoms_loop_rad / stereo_of / bonds_loop: the input type test, the CX block test and index guard, the
+   element dispatch (number, symbol, list), the mark-consuming condition (stereo_of: n <> m, both tables non-empty, can_double),
+   the marked-towards-each-other test, the QueryBond construction with the flag passed as `stereo=` *)
+Theorem smarts_fn_pinned :
+  smarts_fn_tests =
+    ["not isinstance(data, str)"; "cx and cx[0].startswith('|') and cx[0].endswith('|')"; "int(i) >= len(parsed['atoms'])";
+     "isinstance(e, int)"; "isinstance(e, str)";
+     "n != m and n in stereo_bonds and (m in stereo_bonds) and stereo_bonds[n] and stereo_bonds[m] and (b == 2 if isinstance(b, int) else 2 in (b if isinstance(b, list) else b.order))";
+     "m not in stereo_bonds[n]"; "isinstance(b, (int, list))"] /\
+  smarts_qb_calls = ["QueryBond(b, stereo=s1 == s2)"] /\ smarts_raises = ["IncorrectSmarts"; "TypeError"].
+Proof. repeat split; reflexivity. Qed.
